@@ -45,7 +45,16 @@ pub fn build_pssm<A: Abc>(cells: &[Vec<i64>]) -> ScoringMatrix<A> {
 
 pub fn build_seq<A: Abc, C: PositiveLength>(ranks: &[usize], wrap: usize) -> StripedSequence<A, C> {
     let pli = Pipeline::<A, _>::generic();
-    let mut s: StripedSequence<A, C> = pli.stripe(A::syms(ranks));
+    let mut s: StripedSequence<A, C> = if ranks.len() % 3 == 1 {
+        // a REUSED buffer (generic stripe_into): it held a longer sequence and its look-ahead rows before
+        let longer: Vec<usize> = (0..ranks.len() + 40 + ranks.len() % 50).map(|i| (i * 7 + 3) % (A::KK - 1)).collect();
+        let mut buf: StripedSequence<A, C> = pli.stripe(A::syms(&longer));
+        buf.configure_wrap(3);
+        pli.stripe_into(A::syms(ranks), &mut buf);
+        buf
+    } else {
+        pli.stripe(A::syms(ranks))
+    };
     // look-ahead rows are often added in several steps (one striped sequence scored with motifs of growing width)
     if wrap >= 3 && (ranks.len() + wrap) % 2 == 0 {
         s.configure_wrap(1 + ranks.len() % (wrap - 1));
@@ -255,10 +264,29 @@ pub fn sampled<A: Abc>(rec: &mut Recorder, rng: &mut impl Rng, l: usize, from_sa
 where
     Pipeline<A, lightmotif::pli::dispatch::Dispatch>: Score<f32, A, U32>,
 {
+    sampled_with::<A>(rec, rng, l, from_sample, &|cells| (build_pssm::<A>(cells), cells.clone()));
+}
+
+/// the same with a scoring matrix that went through `reverse_complement()` (one of the library's conversions: its wildcard
+/// column must still be -inf); the logged cells are the mirrored ones
+pub fn sampled_rc(rec: &mut Recorder, rng: &mut impl Rng, l: usize, from_sample: bool) {
+    use lightmotif::abc::Dna;
+    sampled_with::<Dna>(rec, rng, l, from_sample, &|cells| {
+        let comp = [2usize, 3, 0, 1, 4];
+        let mirrored: Vec<Vec<i64>> = cells.iter().rev().map(|r| (0..5).map(|k| r[comp[k]]).collect()).collect();
+        (build_pssm::<Dna>(cells).reverse_complement(), mirrored)
+    });
+}
+
+fn sampled_with<A: Abc>(rec: &mut Recorder, rng: &mut impl Rng, l: usize, from_sample: bool,
+                        make: &dyn Fn(&Vec<Vec<i64>>) -> (ScoringMatrix<A>, Vec<Vec<i64>>))
+where
+    Pipeline<A, lightmotif::pli::dispatch::Dispatch>: Score<f32, A, U32>,
+{
     use rand::SeedableRng;
     let m = rng.gen_range(1..=6);
-    let cells = random_pssm::<A>(rng, m, 0.0, true, 20);
-    let pssm = build_pssm::<A>(&cells);
+    let cells0 = random_pssm::<A>(rng, m, 0.0, true, 20);
+    let (pssm, cells) = make(&cells0);
     let r = guarded(|| {
         let srng = rand::rngs::StdRng::seed_from_u64(rng.gen());
         let mut seq = if from_sample {
